@@ -24,3 +24,17 @@ package vsix
 //@   on call crypto/hmac.Equal(a, b) ret (ok): bad = bad || !ok || !sameslice(a, refv) || !sameslice(b, refCalc)
 //@   ensures @every_reference_digest_is_compared_with_the_recomputed_one ret0 == nil ==> !bad
 //@   loop 0 sig "for _, ref := range m.References" invariant !bad
+//@
+//@ func verify
+//@   property C02
+//@   requires f != nil
+//@   ghost xsG *xmldsig.Signature = nil
+//@   ghost manOK bool = false
+//@   ghost tsOK bool = false
+//@   on call xmldsig.Verify(_, _, _) ret (s, e): xsG = ite(e == nil, s, nil)
+//@   before call checkManifest(fs, ref): assert @part_digests_are_checked_against_the_verified_reference_of_the_xml_signature xsG != nil && ref == xsG.Reference && fs == files
+//@   on call checkManifest(_, _) ret (e): manOK = (e == nil)
+//@   before call checkTimestamp(_, d): assert @timestamp_is_checked_against_the_verified_signature_value xsG != nil && sameslice(d, xsG.EncryptedDigest) && manOK
+//@   on call checkTimestamp(_, _) ret (c, e): tsOK = (e == nil)
+//@   ensures @xml_signature_part_digests_and_timestamp_all_checked ret1 == nil ==> xsG != nil && manOK && tsOK
+//@   loop 0 sig "for _, f := range inz.File" invariant xsG == nil && !manOK && !tsOK
